@@ -62,7 +62,30 @@ def goenv():
     env.pop("GOSUMDB", None)
     env.pop("GOTOOLCHAIN", None)
     env["VERIF_REPO"] = REPO
+    ov = overlay_file()
+    if ov:
+        env["GOFLAGS"] += " -overlay=" + ov
+        env["VERIF_OVERLAY"] = ov
     return env
+
+
+def overlay_file():
+    """Package ui embeds ui/app/dist (the built web frontend, not in git), so packages importing it (app) do not
+    compile on a plain checkout. A go build overlay supplies a one-file placeholder WITHOUT touching /repo."""
+    if os.path.isdir(os.path.join(REPO, "ui/app/dist")):
+        return None
+    path = os.path.join(HARNESS, ".overlay.json")
+    want = json.dumps({"Replace": {os.path.join(REPO, "ui/app/dist/index.html"): os.path.join(VERIF, "lib/ui-dist-placeholder.html")}})
+    try:
+        if open(path).read() == want:
+            return path
+    except Exception:
+        pass
+    try:
+        open(path, "w").write(want)
+    except Exception:
+        return None
+    return path
 
 
 def sh(cmd, cwd=None, env=None, timeout=None, check=False):
